@@ -129,6 +129,19 @@ def _plain_lzw(v):
     return W.is_stream(v) and v[1].get(b"Filter") == W.N("LZWDecode") and b"DecodeParms" not in v[1]
 
 
+# replacements for the first `<lo> <hi> <target>` line of a bfrange section
+CMAP_RANGE_FAULTS = [
+    (b"beginbfrange", b"<00000000> <ffffffff> <0041>", b"endbfrange"),
+    (b"beginbfrange", b"<000000> <ffffff> <0041>", b"endbfrange"),
+    (b"beginbfrange", b"<0000> <ffff> <ffffffff>", b"endbfrange"),
+    (b"beginbfrange", b"<0041> <0042> <fffffffffffffffe>", b"endbfrange"),
+    (b"begincidrange", b"<00000000> <ffffffff> 0", b"endcidrange"),
+    (b"begincidrange", b"<0000> <ffff> 4294967295", b"endcidrange"),
+    (b"beginbfrange", b"<0041> <0042> [<0041>]", b"endbfrange"),
+    (b"beginbfrange", b"<0042> <0041> <0041>", b"endbfrange"),
+]
+
+
 def fault_space(s):
     """All structural faults of a seed as JSON-able dicts (deterministic order)."""
     out = []
@@ -149,6 +162,10 @@ def fault_space(s):
                 out.append({"t": "payload", "obj": n, "how": "flip", "i": i})
             out.append({"t": "payload", "obj": n, "how": "garbage"})
             out.append({"t": "payload", "obj": n, "how": "empty"})
+            if not v[1].get(b"Filter") and b"endbfrange" in v[2]:
+                # a CMap program whose range is widened / whose range target overflows: work must stay bounded
+                for k in range(len(CMAP_RANGE_FAULTS)):
+                    out.append({"t": "cmaprange", "obj": n, "k": k})
             if _plain_lzw(v):
                 # code-level corruption of an LZW payload: every one of the first 24 code positions x boundary values
                 for pos in range(24):
@@ -224,6 +241,20 @@ def apply_fault(s, f):
         o2 = dict(objs)
         d = dict(st[1])
         # keep a declared direct Length consistent with the new payload (the fault is the payload, not the length)
+        if isinstance(d.get(b"Length"), int):
+            d[b"Length"] = len(new)
+        o2[f["obj"]] = ("S", d, new)
+        return SD.write(s, o2)
+    if f["t"] == "cmaprange":
+        import re
+
+        st = objs[f["obj"]]
+        begin, line, end = CMAP_RANGE_FAULTS[f["k"]]
+        new = re.sub(rb"1 beginbfrange\s+[^\n]*\n\s*endbfrange", b"1 " + begin + b"\n" + line + b"\n" + end, st[2], count=1)
+        if new == st[2]:
+            return None
+        o2 = dict(objs)
+        d = dict(st[1])
         if isinstance(d.get(b"Length"), int):
             d[b"Length"] = len(new)
         o2[f["obj"]] = ("S", d, new)
@@ -380,6 +411,8 @@ def describe(case):
         return "seed %s object %d key %s removed" % (case["seed"], f["obj"], _fmt_path(f["path"]))
     if f["t"] == "payload":
         return "seed %s stream %d payload %s %s" % (case["seed"], f["obj"], f["how"], f.get("i", ""))
+    if f["t"] == "cmaprange":
+        return "seed %s CMap stream %d range <- %s" % (case["seed"], f["obj"], CMAP_RANGE_FAULTS[f["k"]][1].decode())
     if f["t"] == "lzwcode":
         return "seed %s LZW stream %d code #%d <- %d" % (case["seed"], f["obj"], f["pos"], f["val"])
     if f["t"] == "raw":
@@ -489,7 +522,7 @@ def run_shard(spec, ctx):
         # faults are sampled with a seeded PRNG
         def always(c):
             f = c["fault"]
-            return f["t"] in ("payload", "lzwcode", "whole") or (f["t"] == "replace" and REPL[f["r"]] in ("SELF", "REFERRER") or
+            return f["t"] in ("payload", "lzwcode", "whole", "cmaprange") or (f["t"] == "replace" and REPL[f["r"]] in ("SELF", "REFERRER") or
                                                           (f["t"] == "replace" and f["r"] == 14))
         fixed = [i for i, c in enumerate(cases) if always(c)]
         rest = [i for i, c in enumerate(cases) if not always(c)]
